@@ -318,6 +318,9 @@ func checkC14(c c14Case, ctx *vCtx) *vFailure {
 		if (c.Begin != c07Absent && d < c.Begin) || (c.End != c07Absent && d > c.End) {
 			continue
 		}
+		if c.Layout == "2006-01-02 15:04" && c.End != c07Absent && d == c.End && len(rec.Head) >= 16 && rec.Head[11:16] != "00:00" {
+			continue // the bound is an instant (midnight of that day): later records of the day lie after it
+		}
 		ms := vMergeEntries(rec.Entries)
 		if len(ms) != len(rec.Entries) {
 			hasMerge = true
@@ -453,7 +456,7 @@ func genC14(t *rapid.T) c14Case {
 	}
 	c := c14Case{Log: log, Days: days, Layout: layout, ViaEnv: rapid.Bool().Draw(t, "viaenv"), ViaCfg: rapid.IntRange(0, 2).Draw(t, "viacfg") == 0, Begin: c07Absent, End: c07Absent}
 	c.TZ = c06Zones[rapid.IntRange(0, len(c06Zones)-1).Draw(t, "tz")]
-	if !strings.HasPrefix(layout, "2006-01-02 15:04") && rapid.IntRange(0, 3).Draw(t, "period") == 0 {
+	if layout != "2006-01-02 15:04 -0700" && rapid.IntRange(0, 3).Draw(t, "period") == 0 {
 		c.Begin = shift + rapid.IntRange(0, 7).Draw(t, "b")
 		if rapid.Bool().Draw(t, "hase") {
 			c.End = shift + rapid.IntRange(0, 7).Draw(t, "e")
